@@ -160,7 +160,7 @@ cfg["C21"] = {
 }
 
 ops_q = P("VerifReallocOp", "fault=8") + P("VerifRemoveOp", "fault=14") + P("VerifDissociateOp", "fault=12")
-create_op = P("VerifCreateOp", "fault=24,count=2")
+create_op = P("VerifCreateOp", "fault=24,count=2") + P("VerifReplaceOp", "fault=16")
 node_ops = P("VerifAddNodeOp", "fault=6") + P("VerifRemoveNodeOp", "fault=6") + P("VerifSetNodeOp", "fault=8")
 ledger_assume = [cal_stubs,
     "abstract ledger world: store = set of workload records with one symbolic scalar resource amount each; resource manager = per-node usage with delta/incr semantics (the real plugin arithmetic is verified in C04/C08 and composed by argument only); engine = set of containers with the amount applied",
@@ -170,15 +170,15 @@ ledger_assume = [cal_stubs,
 cfg["C10"] = {
     "title": "Node usage always equals the sum of the workloads recorded on the node", "design_ref": "DESIGN.md §4 C10",
     "runs": [{"dir": CAL, "inline_go": True, "quick": ops_q + create_op, "thorough": ops_q + create_op + P("VerifCreateOp", "fault=30,count=3"), "samples": 4}],
-    "bounds": "one inductive step per operation (ReallocResource, RemoveWorkload, DissociateWorkload, CreateWorkload through the exported API) from an arbitrary ledger state satisfying the invariant (2 workloads on one node; create: 2 empty nodes with 0-2 deployable slots each, AUTO, count<=2/3), with no fault or one fault at any call position (<=24)",
-    "outside": "whole-API histories, interleavings of concurrent operations, replace, the real plugin arithmetic (C04/C08), capacity bounds",
+    "bounds": "one inductive step per operation (ReallocResource, RemoveWorkload, DissociateWorkload, CreateWorkload, ReplaceWorkload through the exported API) from an arbitrary ledger state satisfying the invariant (2 workloads on one node; create: 2 empty nodes with 0-2 deployable slots each, AUTO, count<=2/3), with no fault or one fault at any call position (<=24)",
+    "outside": "whole-API histories, interleavings of concurrent operations, the real plugin arithmetic (C04/C08), capacity bounds",
     "assumptions": ledger_assume,
 }
 cfg["C11"] = {
     "title": "A failed cluster operation leaves no lasting effect", "design_ref": "DESIGN.md §4 C11",
     "runs": [{"dir": CAL, "inline_go": True, "quick": ops_q + node_ops + create_op, "thorough": ops_q + node_ops + create_op + P("VerifCreateOp", "fault=30,count=3"), "samples": 4}],
-    "bounds": "ReallocResource, RemoveWorkload, DissociateWorkload, CreateWorkload, AddNode, RemoveNode, SetNode through the exported API on a ledger of 2 workloads / 1-2 nodes; every position of the single failing step (<=24 positions)",
-    "outside": "replace (not encoded); failures of compensating steps; concurrency; values returned through the `return v, f()` idiom (evaluation order unspecified by the language, go/ssa and gc differ)",
+    "bounds": "ReallocResource, RemoveWorkload, DissociateWorkload, CreateWorkload, ReplaceWorkload, AddNode, RemoveNode, SetNode through the exported API on a ledger of 2 workloads / 1-2 nodes; every position of the single failing step (<=24 positions)",
+    "outside": " failures of compensating steps; concurrency; values returned through the `return v, f()` idiom (evaluation order unspecified by the language, go/ssa and gc differ)",
     "assumptions": ledger_assume,
 }
 
@@ -230,7 +230,7 @@ cfg["C06"]["runs"].append({"dir": SCHED, "permute_ranges": [GCP], "quick": [], "
 
 cfg["C12"] = {
     "title": "Deployment results are complete and truthful", "design_ref": "DESIGN.md §4 C12 / §7.2",
-    "runs": [{"dir": CAL, "inline_go": True, "quick": create_op, "thorough": create_op + P("VerifCreateOp", "fault=30,count=3"), "samples": 4}],
+    "runs": [{"dir": CAL, "inline_go": True, "quick": P("VerifCreateOp", "fault=24,count=2"), "thorough": P("VerifCreateOp", "fault=24,count=2", "fault=30,count=3"), "samples": 4}],
     "bounds": "Calcium.CreateWorkload through the exported API: AUTO over two nodes with 0-2 deployable slots each (symbolic), count 1-2 (thorough 3), symbolic resource amount, no fault or one fault at any of the store / plugin / engine / WAL calls (<=24 positions). ONE sequential schedule: pool tasks and goroutines run to completion at their spawn point, channels are FIFO queues",
     "outside": "every other interleaving of the per-node and per-instance goroutines (the property is quantified over requests and faults, not schedules; other schedules are not explored); other strategies and node filters at this level (the strategies themselves: C01-C03); file injection, hooks, image pull",
     "assumptions": ledger_assume,
